@@ -9,42 +9,62 @@ import driver, stubs
 ANCHORS = ['server/server.go', 'prover/insertion_proving_system.go', 'prover/deletion_proving_system.go', 'prover/marshal.go']
 
 
+def _canon(state):
+    """package-level variables are materialised on first use, so their heap identity differs from path to path: name them by variable"""
+    inv = {oid: 'g:' + name for name, oid in state.globals.items()}
+
+    def c(x):
+        if isinstance(x, tuple) and len(x) == 3 and x[0] == 'mutex':
+            return ('mutex', inv.get(x[1], x[1]), x[2])
+        return inv.get(x, x) if not isinstance(x, (tuple, list, dict)) else x
+    return c
+
+
 def footprint(state):
     """[(kind, location, lockset, pos)] after the invocation began"""
     begun, held, out = False, [], []
+    cn = _canon(state)
     for ev in state.events:
         if ev[0] == 'invocation-begin':
             begun = True
         elif not begun:
             continue
         elif ev[0] == 'lock':
-            held.append(ev[1])
+            held.append(cn(ev[1]))
         elif ev[0] == 'unlock':
-            if ev[1] in held:
-                held.remove(ev[1])
+            if cn(ev[1]) in held:
+                held.remove(cn(ev[1]))
         elif ev[0] in ('shared_write', 'shared_read'):
             kind = 'w' if ev[0] == 'shared_write' else 'r'
             if state.obj_epoch.get(ev[1]) == -2:
                 kind = 'p'      # access to an object after it was released to a sync.Pool: the next owner writes it concurrently
-            out.append((kind, (ev[1], ev[2]), tuple(sorted(map(str, held))), ev[3]))
+            out.append((kind, (cn(ev[1]), ev[2]), tuple(sorted(map(str, held))), ev[3]))
     return out
 
 
 def all_accesses(events, state):
-    """every access (private ones included) of an invocation with its lockset"""
+    """every access (private ones included) of an invocation with its lockset, from its first write to shared state on: what it did to
+    an object before publishing it is ordered before everything a later invocation does to that object, provided the publication itself
+    (a shared write, checked pairwise by the first family of queries) is ordered against the later invocation's reads of it"""
     begun, held, out, seen = False, [], [], set()
+    cn = _canon(state)
+    published = False
     for ev in events:
+        if ev[0] == 'shared_write':
+            published = True
+        if ev[0] in ('priv_write', 'priv_read') and not published:
+            continue
         if ev[0] == 'invocation-begin':
             begun = True
         elif not begun:
             continue
         elif ev[0] == 'lock':
-            held.append(ev[1])
+            held.append(cn(ev[1]))
         elif ev[0] == 'unlock':
-            if ev[1] in held:
-                held.remove(ev[1])
+            if cn(ev[1]) in held:
+                held.remove(cn(ev[1]))
         elif ev[0] in ('shared_write', 'shared_read', 'priv_write', 'priv_read'):
-            a = ('w' if ev[0].endswith('write') else 'r', (ev[1], ev[2]), tuple(sorted(map(str, held))), ev[3])
+            a = ('w' if ev[0].endswith('write') else 'r', (cn(ev[1]), ev[2]), tuple(sorted(map(str, held))), ev[3])
             if (a[0], a[1][0], a[2], a[3]) not in seen:
                 seen.add((a[0], a[1][0], a[2], a[3]))
                 out.append(a)
@@ -67,6 +87,67 @@ def race_query(a, b):
     return r, time.time() - t
 
 
+def _consts(t, acc):
+    todo, seen = [t], set()
+    while todo:
+        e = todo.pop()
+        if e.get_id() in seen:
+            continue
+        seen.add(e.get_id())
+        if z3.is_const(e) and e.decl().kind() == z3.Z3_OP_UNINTERPRETED:
+            acc[e.decl().name()] = e
+        else:
+            todo.extend(e.children())
+
+
+def _earlier(name):
+    m = name.rsplit('!', 1)
+    return len(m) == 2 and m[1].isdigit() and 100000 < int(m[1]) < 200000
+
+
+def observable(state):
+    """z3 terms that decide what the client sees: status line(s), error code, and for a proof the public input and system it is bound to"""
+    o = []
+    proofs = [e[1] for e in state.events if e[0] == 'proof_marshalled']
+    for e in state.events:
+        if e[0] == 'WriteHeader':
+            o.append(e[1] if isinstance(e[1], z3.ExprRef) else z3.StringVal(str(e[1])))
+        elif e[0] == 'Write':
+            doc = stubs._last_body(state)
+            if isinstance(doc, stubs.JsonDoc) and isinstance(doc.value, stubs.MapVal):
+                for k, v in doc.value.items:
+                    kz = z3.simplify(k.z) if getattr(k, 'z', None) is not None else None
+                    if kz is not None and z3.is_string_value(kz) and kz.as_string() == 'code' and getattr(v, 'z', None) is not None:
+                        o.append(v.z)
+    for p in proofs:
+        o.append(z3.StringVal('proof of system %s' % getattr(p, 'sys', None)))
+        w = getattr(p, 'witness', None)
+        if w is not None and 'InputHash' in getattr(w, 'fields', {}):
+            o.append(z3.URem(stubs.wit_big(None, w.fields['InputHash']), stubs.bvval(stubs.BN254_R, stubs.BIG)))
+    return o
+
+
+def noninterference(pc, obs):
+    """exists two earlier requests (same later request, same path) for which the later answer differs?"""
+    cs = {}
+    for t in obs:
+        _consts(t, cs)
+    dep = sorted(n for n in cs if _earlier(n))
+    if not dep:
+        return 'unsat', 0.0, []           # syntactically independent of the earlier invocation
+    for c in pc:
+        _consts(c, cs)
+    sub = [(e, z3.Const(n + "'", e.sort())) for n, e in cs.items() if _earlier(n)]
+    s = z3.Solver()
+    s.set('timeout', 60000)
+    for c in pc:
+        s.add(c, z3.substitute(c, *sub))
+    s.add(z3.Or(*[t != z3.substitute(t, *sub) for t in obs]))
+    t0 = time.time()
+    r = str(s.check())
+    return r, time.time() - t0, dep
+
+
 def main():
     run = Run('C13', level='model_checking', anchors=ANCHORS)
 
@@ -80,13 +161,16 @@ def main():
             ex0 = Exec(prog, stubs.make_stubs(), loop_bound=12)
             setups = [r for r in ex0.run(name('VerifHarness_C13_Setup')) if r.status == 'ok']
             res, second, mid_bad = [], [], []
-            for s0 in setups:
+            for si, s0 in enumerate(setups):
                 ex = Exec(prog, stubs.make_stubs(), loop_bound=12, max_paths=200000)
                 ex.skip_init = True
+                ex.fresh = 100000        # symbols of the first invocation: 100001..199999 (its request, its draws)
                 ex.snapshots = []
                 st = s0.state.clone()
                 st.events = []
                 r1 = ex.run(name('VerifHarness_C13_Invoke'), state=st)
+                for r in r1:
+                    r.setup_i = si      # heap identities (mutexes, globals touched lazily) are only comparable within one configuration
                 res += r1
                 # an invocation that starts while another one is in mid-flight: from every distinct unlock point of the first
                 seen_mid = set()
@@ -97,6 +181,7 @@ def main():
                     seen_mid.add(sig)
                     ex3 = Exec(prog, stubs.make_stubs(), loop_bound=12, max_paths=200000)
                     ex3.skip_init = True
+                    ex3.fresh = 300000
                     ex3.time_budget = 120
                     st3 = snap.clone()
                     st3.frames = []
@@ -114,6 +199,7 @@ def main():
                 for sig, r in list(sigs.items())[:4]:
                     ex2 = Exec(prog, stubs.make_stubs(), loop_bound=12, max_paths=200000)
                     ex2.skip_init = True
+                    ex2.fresh = 200000   # the later invocation's own symbols
                     st2 = r.state.clone()
                     first_events = list(st2.events)
                     st2.events = []
@@ -142,20 +228,20 @@ def main():
         accesses = collections.OrderedDict()
         for r in paths:
             for a in footprint(r.state):
-                accesses.setdefault((a[0], a[1], a[2]), a)
+                accesses.setdefault((r.setup_i, a[0], a[1], a[2]), a + (r.setup_i,))
         acc = list(accesses.values())
         writes = [a for a in acc if a[0] == 'w']
         pooled = [a for a in acc if a[0] == 'p']
         for a in pooled:
             # the other invocation obtains the object from the pool and writes into it: always a conflicting pair unless a common lock orders them
-            writes.append(('w', a[1], (), 'sync.Pool.Get + write by the next owner'))
+            writes.append(('w', a[1], (), 'sync.Pool.Get + write by the next owner', a[4]))
         run.log('%d paths; %d distinct shared accesses (%d writes)' % (len(paths), len(acc), len(writes)))
         run.extra['shared_accesses'] = [{'kind': a[0], 'location': str(a[1]), 'lockset': list(a[2]), 'pos': a[3]} for a in acc]
         races = []
         nq = 0
         for w in writes:
             for b in acc:
-                if b[1][0] != w[1][0] or (b[1][1] != w[1][1] and not (b[1][1][:len(w[1][1])] == w[1][1] or w[1][1][:len(b[1][1])] == b[1][1])):
+                if b[4] != w[4] or b[1][0] != w[1][0] or (b[1][1] != w[1][1] and not (b[1][1][:len(w[1][1])] == w[1][1] or w[1][1][:len(b[1][1])] == b[1][1])):
                     continue
                 r, secs = race_query(w, b)
                 nq += 1
@@ -176,17 +262,44 @@ def main():
                         run.obligation('a later invocation\'s %s at %s is ordered against the earlier invocation\'s %s at %s on the object it published' % ('write' if b[0] == 'w' else 'read', b[3], 'write' if a[0] == 'w' else 'read', a[3]), r, 'unsat', secs)
                         races.append((a, b))
         run.extra['second_invocation_pairs'] = n2
+        # non-interference (self-composition): what a later invocation answers (status, error code, the public input / system its
+        # proof is bound to) must not vary with the earlier invocation's request once the later request and the path are fixed
+        flows, nf, tf = [], 0, 0.0
+        for first_events, st1, r2 in second[:400]:
+            o = observable(r2.state)
+            verdict, secs, dep = noninterference(r2.state.pc, o)
+            nf += 1
+            tf += secs
+            if verdict != 'unsat':
+                flows.append((verdict, dep, o))
+        run.obligation('the answer of a later invocation (status, error code, public input and system of the returned proof) is a function of its own request: '
+                       'renaming the earlier request\'s values cannot change it (%d end states x paths, self-composition queries)' % nf,
+                       'unsat' if not flows else flows[0][0], 'unsat', tf)
         run.obligation('shared writes of one invocation: every one is ordered against every access of another invocation (%d candidate pairs, %d with a preceding invocation)' % (nq, n2), 'unsat' if not races else 'sat', 'unsat', 0.0)
         run.samples = run.extra['shared_accesses'][:6] or [{'note': 'no shared access'}]
         run.obligation('no invocation takes its result from a channel shared with the other invocations', 'unsat' if not xchan else 'sat', 'unsat', 0.0)
         run.obligation('an invocation that starts while another is in mid-flight (after any of its unlocks) neither waits on nor takes its result from what the other one published', 'unsat' if not mid_bad else 'sat', 'unsat', 0.0)
+        _native = []
+
+        def native(timeout):
+            if not _native:
+                try:
+                    _native.append(driver.replay_native('server', 'server', ['c13_native.go', 'deploy_native.go'], 'VerifHarness_C13_Native', {}, timeout=timeout, race=True))
+                except Exception as x:  # noqa
+                    _native.append(([], False, repr(x)))
+                    run.inconclusive.append('native replay failed to run: %r' % (x,))
+            return _native[0]
+        if flows:
+            dep = flows[0][1]
+            failed, panicked, out = native(1500)
+            if failed or panicked:
+                run.violation('the answer to a request depends on an earlier request (through %s kept in shared state) -- reproduced natively (%s)' % (', '.join(dep[:3]), (sorted(set(failed)) or ['hang / panic'])[:1]),
+                              {'depends_on': dep[:8], 'native_failed': sorted(set(failed))[:5], 'native_output_tail': out[-2000:]}, key='C13:flow')
+            else:
+                run.inconclusive.append('information flow from an earlier request (%s) not reproduced by the native run' % ', '.join(dep[:3]))
         if (leaks or dead or xchan or mid_bad) and not races:
             what = ('started after the other invocation\'s unlock at %s: %s' % (mid_bad[0][0], mid_bad[0][1].info)) if mid_bad and not xchan else str(xchan[0].info) if xchan else ('a path of one invocation ends with blocking state %s still taken' % blocking(leaks[0].state)) if leaks else str(dead[0].info)
-            try:
-                failed, panicked, out = driver.replay_native('server', 'server', ['c13_native.go', 'deploy_native.go'], 'VerifHarness_C13_Native', {}, timeout=900, race=True)
-            except Exception as x:  # noqa
-                failed, panicked, out = [], False, repr(x)
-                run.inconclusive.append('native replay failed to run: %r' % (x,))
+            failed, panicked, out = native(900)
             if failed or panicked:
                 run.violation('%s: later/overlapping requests depend on it -- reproduced natively (overlapping requests, three rounds: %s)' % (what, (sorted(set(failed)) or ['hang / panic'])[:1]),
                               {'leak': what, 'native_failed': sorted(set(failed))[:5], 'native_output_tail': out[-2000:]}, key='C13:blocking-state')
@@ -194,16 +307,12 @@ def main():
                 run.inconclusive.append('blocking-state leak (%s) not reproduced by the native run' % what)
         if races:
             w, b = races[0]
-            try:
-                failed, panicked, out = driver.replay_native('server', 'server', ['c13_native.go', 'deploy_native.go'], 'VerifHarness_C13_Native', {}, timeout=1500, race=True)
-            except Exception as x:  # noqa
-                failed, panicked, out = [], False, repr(x)
-                run.inconclusive.append('native replay failed to run: %r' % (x,))
-            if failed or panicked:
+            failed, panicked, out = native(1500)
+            if (failed or panicked) and ('DATA RACE' in out or not flows):
                 run.violation('data race between two overlapping requests: write at %s vs %s at %s -- reproduced natively (overlapping requests under -race: %s)' %
                               (w[3], 'write' if b[0] == 'w' else 'read', b[3], 'DATA RACE reported' if 'DATA RACE' in out else (failed or ['panic'])[:1]),
                               {'write': str(w), 'other': str(b), 'native_failed': sorted(set(failed))[:5], 'race_report': 'WARNING: DATA RACE' in out, 'native_output_tail': out[-2000:]}, key='C13:race')
-            else:
+            elif not (flows and run.violations):
                 run.inconclusive.append('race candidate (write at %s) not reproduced by the native -race run' % w[3])
         run.assumptions += sorted(stubs.USED) + ['races inside gnark, net/http, zerolog are outside the claim; the footprint of stubs: json.Unmarshal writes its target, Prove reads the proving system',
                                                   'two invocations suffice: all invocations run the same code, a conflict between k exists iff one between 2 does']
